@@ -39,7 +39,19 @@ pub enum Kind {
     /// C10 base event with one event-builder fault
     EvFault { base: BaseEvent, slot: usize },
     /// stage B: a file with these events run through the real binary
-    File { events: Vec<Kind>, threads: u32, sched_seed: u64, hash_seed: u64 },
+    File {
+        events: Vec<Kind>,
+        threads: u32,
+        sched_seed: u64,
+        hash_seed: u64,
+        /// stage C: run the build with the REAL rayon-core on real threads, `repeat` times
+        /// (nondeterministic stress; exists because the simulated scheduler cannot interleave
+        /// INSIDE a closure, so a data race between two workers needs real preemption)
+        #[serde(default)]
+        real_rayon: bool,
+        #[serde(default)]
+        repeat: u32,
+    },
 }
 
 #[derive(Clone, Debug, Serialize, Deserialize, PartialEq)]
@@ -216,7 +228,7 @@ fn random_kind(r: &mut Rng, tier: Tier, index: u64) -> Kind {
         8 => Kind::Random { n: r.usize(0, 12) },
         _ => Kind::EvFault {
             base: BaseEvent { run: *r.pick(&[u32::MAX, 11084, 9277, 0]), seed: r.next_u64(), n_wires: r.usize(1, 30), n_pad_msgs: r.usize(0, 3), long_only: r.chance(1, 2), pad_start: None },
-            slot: r.usize(0, 21),
+            slot: r.usize(0, 31),
         },
     }
 }
@@ -232,7 +244,7 @@ impl Check for C09Check {
         true
     }
     fn rule(&self) -> String {
-        "stage A scenarios (each executed by the release and by the overflow-checked harness build): one main event of kind {forward-model event with 1-6 tracks, noise 0..200 counts, amplitude scale 0.05..40 (saturating); extreme-but-CRC-valid event: 0..256 wires (seam-straddling blocks, full ring) with samples all MIN / all MAX / alternating / full-range random / flat / single spike / ramp, lengths 64,99..102,130,..1500, 0..6 PWB messages with 1..79 channels, requested_samples 0,1,2,99..102,..511 and pad samples over the full i16 range; one response-shaped pulse at a seeded (wire, time bin 0..300, pad row) - the quick tier additionally sweeps EVERY time bin 0..=300 at several z; synthetic hit patterns (radial line, equal-radius arc, repeated points, full ring, vertical line, seam block, crossing lines, random cloud) of 1..256 avalanches; random bank names and bytes; a C10 base event with one event-builder inconsistency} -> real try_from_banks -> timestamp, avalanches, vertex under catch_unwind in worker processes with a watchdog. stage B scenarios: 3-12 such events (plus light events) written into a simulated MIDAS file and analysed by the real alpha-g-vertices on the simulated rayon-core (seeded schedule, 1-16 workers, 4 MiB worker stacks as configured by the program): exit status 0 and exactly one row per main event, in order. Violation = panic, abort (worker death / signal), hang, or a lost row. Non-trivial = the event reached try_from_banks; distinct = distinct event-log hashes (bank bytes + outcome summary).".into()
+        "stage A scenarios (each executed by the release and by the overflow-checked harness build): one main event of kind {forward-model event with 1-6 tracks, noise 0..200 counts, amplitude scale 0.05..40 (saturating); extreme-but-CRC-valid event: 0..256 wires (seam-straddling blocks, full ring) with samples all MIN / all MAX / alternating / full-range random / flat / single spike / ramp, lengths 64,99..102,130,..1500, 0..6 PWB messages with 1..79 channels, requested_samples 0,1,2,99..102,..511 and pad samples over the full i16 range; one response-shaped pulse at a seeded (wire, time bin 0..300, pad row) - the quick tier additionally sweeps EVERY time bin 0..=300 at several z; synthetic hit patterns (radial line, equal-radius arc, repeated points, full ring, vertical line, seam block, crossing lines, random cloud) of 1..256 avalanches; random bank names and bytes; a C10 base event with one event-builder inconsistency} -> real try_from_banks -> timestamp, avalanches, vertex under catch_unwind in worker processes with a watchdog. stage B scenarios: 3-12 such events (plus light events) written into a simulated MIDAS file and analysed by the real alpha-g-vertices on the simulated rayon-core (seeded schedule, 1-16 workers, 4 MiB worker stacks as configured by the program): exit status 0 and exactly one row per main event, in order. stage C scenarios (supplementary, nondeterministic): files of 16-28 similar large events (60-100-wire arcs, full rings, 3-track events) analysed 4 times by the build with the REAL rayon-core on 8/16 real threads - the simulated scheduler interleaves at closure granularity only, so a data race between two workers inside a closure needs real preemption; a failure here is reported with a replay that repeats the run. Violation = panic, abort (worker death / signal), hang, or a lost row. Non-trivial = the event reached try_from_banks; distinct = distinct event-log hashes (bank bytes + outcome summary).".into()
     }
     fn assumptions(&self) -> Vec<String> {
         vec![
@@ -249,8 +261,8 @@ impl Check for C09Check {
     }
     fn count(&self, tier: Tier) -> u64 {
         2 * match tier {
-            Tier::Quick => 1000 + 301 * 4 + 40,
-            Tier::Thorough => 60_000 + 301 * 40 + 1500,
+            Tier::Quick => 1000 + 301 * 4 + 40 + 6,
+            Tier::Thorough => 60_000 + 301 * 40 + 1500 + 120,
         }
     }
     fn watchdog_s(&self, _tier: Tier) -> u64 {
@@ -273,11 +285,24 @@ impl Check for C09Check {
             let rows = [288usize, 113, 575, 0, 462, 470, 100, 200];
             let row = if (k / 301) < 8 { rows[(k / 301) as usize] } else { r.usize(0, 575) };
             Kind::Pulse { wire: r.usize(0, 255), bin: (k % 301) as usize, row, amp: 80.0 }
-        } else {
-            let _ = n_file;
+        } else if i < n_rand + 301 * n_z + n_file {
             let n = r.usize(3, 12);
             let events = (0..n).map(|k| random_kind(&mut r, tier, k as u64 * 7 + i)).collect();
-            Kind::File { events, threads: *r.pick(&[1u32, 2, 5, 16]), sched_seed: r.next_u64() >> 1, hash_seed: r.next_u64() >> 1 }
+            Kind::File { events, threads: *r.pick(&[1u32, 2, 5, 16]), sched_seed: r.next_u64() >> 1, hash_seed: r.next_u64() >> 1, real_rayon: false, repeat: 1 }
+        } else {
+            // stage C: many similar large events at the start of a file, real threads
+            let n = r.usize(16, 28);
+            let shape = r.below(3);
+            let events = (0..n)
+                .map(|k| match (shape, k % 4) {
+                    (0, _) => Kind::Hits { pattern: 1, n: 60 },
+                    (1, _) => Kind::Fwd { tracks: 3, noise: 2.0, amp_scale: 1.0 },
+                    (_, 0) => Kind::Hits { pattern: 3, n: 256 },
+                    (_, 1) => Kind::Hits { pattern: 1, n: 100 },
+                    _ => Kind::Fwd { tracks: r.usize(2, 4), noise: 0.0, amp_scale: 1.0 },
+                })
+                .collect();
+            Kind::File { events, threads: *r.pick(&[8u32, 16]), sched_seed: 0, hash_seed: r.next_u64() >> 1, real_rayon: true, repeat: 4 }
         };
         serde_json::to_value(Scn { mode: mode.into(), seed, kind }).unwrap()
     }
@@ -290,7 +315,7 @@ impl Check for C09Check {
         }
         let mut log = H64::new();
         let mut viol = Vec::new();
-        if let Kind::File { events, threads, sched_seed, hash_seed } = &scn.kind {
+        if let Kind::File { events, threads, sched_seed, hash_seed, real_rayon, repeat } = &scn.kind {
             if have_checks {
                 // stage B runs once per pair (release binaries are the shipped configuration)
                 return Outcome { log_hash: 1, nontrivial: false, violations: vec![] };
@@ -313,26 +338,52 @@ impl Check for C09Check {
             let scratch = Scratch::new("c09");
             let p = write_file(&scratch.dir, "r.mid", &mf, false, None);
             log.bytes(&mf.encode());
-            stats.executions += 1;
-            let res = run_binary(
-                "alpha-g-vertices",
-                &scratch.dir,
-                &[p],
-                &[],
-                "out",
-                &RunEnv { sched_seed: Some(*sched_seed), hash_seed: Some(*hash_seed), threads: Some(*threads), ..Default::default() },
-            );
-            let rows = res.csv.as_ref().and_then(|c| csv_body(c)).map(|b| b.1);
-            let ok_rows = rows.as_ref().map_or(false, |r| r.len() == mains && r.iter().zip(&serials).all(|(row, s)| row.first().and_then(|f| f.parse::<u32>().ok()) == Some(*s)));
-            if !res.success || !ok_rows {
+            let reps = if *real_rayon { (*repeat).max(1) } else { 1 };
+            let mut res = None;
+            let mut bad = false;
+            for _ in 0..reps {
+                stats.executions += 1;
+                if *real_rayon {
+                    stats.probe("stageC_real_thread_runs");
+                }
+                let r = run_binary(
+                    "alpha-g-vertices",
+                    &scratch.dir,
+                    &[p.clone()],
+                    &[],
+                    "out",
+                    &RunEnv { sched_seed: Some(*sched_seed), hash_seed: Some(*hash_seed), threads: Some(*threads), real_rayon: *real_rayon, ..Default::default() },
+                );
+                let rows = r.csv.as_ref().and_then(|c| csv_body(c)).map(|b| b.1);
+                let ok_rows = rows.as_ref().map_or(false, |r| r.len() == mains && r.iter().zip(&serials).all(|(row, s)| row.first().and_then(|f| f.parse::<u32>().ok()) == Some(*s)));
+                bad = !r.success || !ok_rows;
+                res = Some((r, rows));
+                if bad {
+                    break;
+                }
+            }
+            let (res, rows) = res.unwrap();
+            let stage = if *real_rayon { "stageC-real-threads" } else { "stageB" };
+            if bad {
                 viol.push(Violation {
                     invariant: "C09.B-every-main-event-gets-a-row".into(),
-                    signature: format!("stageB:{}", if res.code.is_none() { "signal" } else if !res.success { "exit-nonzero" } else { "rows" }),
-                    detail: format!("alpha-g-vertices: exit {:?}, rows {:?} for {mains} main events (serials {:?}); stderr: {}", res.code, rows.map(|r| r.iter().map(|x| x.join(",")).collect::<Vec<_>>()), serials, res.stderr),
-                    narrowed: None,
+                    signature: format!("{stage}:{}", if res.code.is_none() { "signal" } else if !res.success { "exit-nonzero" } else { "rows" }),
+                    detail: format!("alpha-g-vertices: exit {:?}, rows {:?} for {mains} main events (serials {:?}); stderr: {}", res.code, rows.map(|r| r.iter().map(|x| x.join(",")).collect::<Vec<_>>()), serials, res.stderr.chars().take(300).collect::<String>()),
+                    // a failure on real threads is a race: its replay repeats the run many times
+                    narrowed: if *real_rayon {
+                        let mut s2 = scn.clone();
+                        if let Kind::File { repeat, .. } = &mut s2.kind {
+                            *repeat = 60;
+                        }
+                        Some(serde_json::to_value(s2).unwrap())
+                    } else {
+                        None
+                    },
                 });
             }
-            log.u64(res.success as u64);
+            if !*real_rayon {
+                log.u64(res.success as u64);
+            }
             return Outcome { log_hash: log.finish(), nontrivial: mains > 0, violations: viol };
         }
         let (run, banks) = kind_banks(&scn.kind, scn.seed);
@@ -414,14 +465,18 @@ impl Check for C09Check {
                     push(Kind::Random { n: n - 1 });
                 }
             }
-            Kind::File { events, threads, sched_seed, hash_seed } => {
-                for i in 0..events.len() {
-                    let mut e = events.clone();
-                    e.remove(i);
-                    push(Kind::File { events: e, threads: *threads, sched_seed: *sched_seed, hash_seed: *hash_seed });
-                }
-                if *threads > 1 {
-                    push(Kind::File { events: events.clone(), threads: 1, sched_seed: *sched_seed, hash_seed: *hash_seed });
+            Kind::File { events, threads, sched_seed, hash_seed, real_rayon, repeat } => {
+                // (a racy failure on real threads is not shrunk event by event: each candidate would
+                // need many repetitions; only the deterministic stage B is minimised)
+                if !*real_rayon {
+                    for i in 0..events.len() {
+                        let mut e = events.clone();
+                        e.remove(i);
+                        push(Kind::File { events: e, threads: *threads, sched_seed: *sched_seed, hash_seed: *hash_seed, real_rayon: false, repeat: *repeat });
+                    }
+                    if *threads > 1 {
+                        push(Kind::File { events: events.clone(), threads: 1, sched_seed: *sched_seed, hash_seed: *hash_seed, real_rayon: false, repeat: *repeat });
+                    }
                 }
             }
             _ => {}
